@@ -387,10 +387,16 @@ where
 			.join(TX_SAVE_DIR)
 			.join(filename);
 		let path_buf = Path::new(&path).to_path_buf();
+		#[cfg(feature = "verif_hooks")]
+		crate::libwallet::verif::point("store_tx.pre").map_err(Error::IO)?;
+		#[cfg(feature = "verif_hooks")]
+		let verif_path = path_buf.clone();
 		let mut stored_tx = File::create(path_buf)?;
 		let tx_hex = ser::ser_vec(tx, ser::ProtocolVersion(1)).unwrap().to_hex();
 		stored_tx.write_all(&tx_hex.as_bytes())?;
 		stored_tx.sync_all()?;
+		#[cfg(feature = "verif_hooks")]
+		crate::libwallet::verif::point_file("store_tx.post", &verif_path).map_err(Error::IO)?;
 		Ok(())
 	}
 
@@ -418,6 +424,8 @@ where
 		&'a mut self,
 		keychain_mask: Option<&SecretKey>,
 	) -> Result<Box<dyn WalletOutputBatch<K> + 'a>, Error> {
+		#[cfg(feature = "verif_hooks")]
+		crate::libwallet::verif::observe(crate::libwallet::verif::Event::BatchOpened);
 		Ok(Box::new(Batch {
 			_store: self,
 			db: RefCell::new(Some(self.db.batch()?)),
@@ -426,6 +434,8 @@ where
 	}
 
 	fn batch_no_mask<'a>(&'a mut self) -> Result<Box<dyn WalletOutputBatch<K> + 'a>, Error> {
+		#[cfg(feature = "verif_hooks")]
+		crate::libwallet::verif::observe(crate::libwallet::verif::Event::BatchOpened);
 		Ok(Box::new(Batch {
 			_store: self,
 			db: RefCell::new(Some(self.db.batch()?)),
@@ -541,6 +551,15 @@ where
 				None => to_key(OUTPUT_PREFIX, &mut out.key_id.to_bytes().to_vec()),
 			};
 			self.db.borrow().as_ref().unwrap().put_ser(&key, &out)?;
+			#[cfg(feature = "verif_hooks")]
+			crate::libwallet::verif::observe(crate::libwallet::verif::Event::OutputSaved {
+				key_id: out.key_id.to_hex(),
+				mmr_index: out.mmr_index,
+				value: out.value,
+				is_coinbase: out.is_coinbase,
+				status: format!("{}", out.status),
+				commit: out.commit.clone(),
+			});
 		}
 
 		Ok(())
@@ -583,6 +602,11 @@ where
 				None => to_key(OUTPUT_PREFIX, &mut id.to_bytes().to_vec()),
 			};
 			let _ = self.db.borrow().as_ref().unwrap().delete(&key);
+			#[cfg(feature = "verif_hooks")]
+			crate::libwallet::verif::observe(crate::libwallet::verif::Event::OutputDeleted {
+				key_id: id.to_hex(),
+				mmr_index: *mmr_index,
+			});
 		}
 
 		Ok(())
@@ -760,8 +784,14 @@ where
 	}
 
 	fn commit(&self) -> Result<(), Error> {
+		#[cfg(feature = "verif_hooks")]
+		crate::libwallet::verif::point("lmdb.commit.pre").map_err(Error::Backend)?;
 		let db = self.db.replace(None);
 		db.unwrap().commit()?;
+		#[cfg(feature = "verif_hooks")]
+		crate::libwallet::verif::observe(crate::libwallet::verif::Event::BatchCommitted);
+		#[cfg(feature = "verif_hooks")]
+		crate::libwallet::verif::point("lmdb.commit.post").map_err(Error::Backend)?;
 		Ok(())
 	}
 }
